@@ -864,13 +864,18 @@ func (s *clientSocket) _sendBuffers(volatile, forceSend bool, ackID *uint64, buf
 			}
 		}
 
+		// Only control packets (`forceSend`) may be sent while the CONNECT packet is pending: the server closes the connection
+		// if it receives an event for a namespace the socket has not joined yet. Everything else waits in the send buffer,
+		// which `onConnect` flushes. The state is checked under `sendBufferMu` (the flush runs under it, after the state
+		// is set), and a packet that finds earlier packets still waiting for that flush queues up behind them.
+		s.sendBufferMu.Lock()
 		s.stateMu.RLock()
-		sendImmediately := s.state == clientSocketConnStateConnected || s.state == clientSocketConnStateConnectPending
+		connected := s.state == clientSocketConnStateConnected
 		s.stateMu.RUnlock()
-		if sendImmediately || forceSend {
+		if forceSend || (connected && (volatile || len(s.sendBuffer) == 0)) {
+			s.sendBufferMu.Unlock()
 			s.manager.packet(packets...)
 		} else if !volatile {
-			s.sendBufferMu.Lock()
 			buffers := make([]sendBufferItem, len(packets))
 			for i := range buffers {
 				buffers[i] = sendBufferItem{
@@ -881,6 +886,7 @@ func (s *clientSocket) _sendBuffers(volatile, forceSend bool, ackID *uint64, buf
 			s.sendBuffer = append(s.sendBuffer, buffers...)
 			s.sendBufferMu.Unlock()
 		} else {
+			s.sendBufferMu.Unlock()
 			s.debug.Log("Packet is discarded")
 		}
 	}
